@@ -1,6 +1,7 @@
 mod cluster;
 mod exec;
 mod kit;
+mod stream;
 
 use kit::report::{self, CheckSpec, RunFn, Tier};
 
@@ -81,6 +82,29 @@ fn registry(prop: &str) -> Option<(CheckSpec, RunFn, Cands)> {
                 expected_probes: &[],
             };
             Some((s, f, exec::shrink_candidates))
+        }
+        "C16" | "C41" => {
+            let c16 = prop == "C16";
+            let s = CheckSpec {
+                prop: if c16 { "C16" } else { "C41" },
+                engine: "stream-sim",
+                level: "fault_enumeration",
+                rule: if c16 {
+                    "one run = 3 generated well-formed responses (status, shuffled headers with odd-case / duplicated / absent Content-Length, bodies of 0-2000 bytes that may themselves contain header terminators); each is delivered cut at EVERY byte offset followed by a clean close (enumerated for responses up to 2 KiB), plus seeded resets and stalls at random and boundary offsets, under three segmentations (one write, random pieces with delays, split in two) and three timeouts on a paused clock; the oracle is the script: which bytes were delivered before the connection ended; distinct = distinct (declared?, position class, ending, outcome, response)"
+                } else {
+                    "one run = 5 generated bodies (bytes biased to CR, LF, '0', ';'), each chunked with seeded chunk sizes, upper/lower hex, optional chunk extensions and trailers: the well-formed framing must decode to the body, EVERY proper prefix must be rejected or decode to the whole body, ten malformed framings (missing CRLF, non-hex / negative / empty size, size beyond the remainder, five huge hex sizes) must be rejected, 40 arbitrary byte strings must not panic; 2 more bodies go through http_get over real loopback with a scripted peer thread, complete or cut at a seeded offset; distinct = distinct framed inputs"
+                },
+                runs_quick: 1600,
+                runs_thorough: 20000,
+                secs_quick: 45,
+                secs_thorough: 900,
+                gate_runs: 16,
+                real: if c16 { &["distributed::http_client::request / request_inner / parse_response", "tokio timeout on the paused clock"] } else { &["metastore::gravitino::dechunk", "metastore::gravitino::http_get over real loopback TCP"] },
+                stub: if c16 { &["the peer is a scripted task behind verif::net::SimTcpStream (a duplex pipe), not a socket"] } else { &["the metastore is a scripted peer thread"] },
+                assumptions: if c16 { &["a complete header block followed by at least Content-Length body bytes must be accepted; fewer must be rejected; without Content-Length the body is everything up to EOF (the client's documented contract)"] } else { &["http_get reads to EOF before parsing, so its result is a function of the delivered bytes only (the harness still varies segmentation)"] },
+                expected_probes: &[],
+            };
+            Some((s, if c16 { stream::run_c16 } else { stream::run_c41 }, stream::no_shrink))
         }
         _ => None,
     }
